@@ -46,6 +46,9 @@ type TF struct { // term factory (one per path execution)
 func NewTF() *TF { return &TF{tab: map[string]*Term{}} }
 
 func (f *TF) intern(t *Term) *Term {
+	if t.Sort == SInt && t.Op != "const" && t.lo != nil && t.hi != nil && t.lo.Cmp(t.hi) == 0 {
+		return f.Int(t.lo) // interval collapsed to a point: the value is determined
+	}
 	var sb strings.Builder
 	sb.WriteString(t.Op)
 	sb.WriteByte('|')
